@@ -127,3 +127,8 @@ func Yield()                          { runtime.Gosched() }
 func Known(id string, pred bool)      {}
 func Concrete() bool                  { return true }
 func UFInt(name string, args []int) int { return 0 }
+
+// Boolean combinators that do not fork under the symbolic executor (Go's && and || compile to branches).
+func And(a, b bool) bool     { return a && b }
+func Or(a, b bool) bool      { return a || b }
+func Implies(a, b bool) bool { return !a || b }
